@@ -40,7 +40,7 @@ impl<const N: u32> PxE2<{ N }> {
         let sign_a = Self::sign_ui(ui_a);
         let sign_b = Self::sign_ui(ui_b);
         let sign_c = Self::sign_ui(ui_c); //^ (op == softposit_mulAdd_subC);
-        let mut sign_z = sign_a ^ sign_b; // ^ (op == softposit_mulAdd_subProd);
+        let sign_z = sign_a ^ sign_b; // ^ (op == softposit_mulAdd_subProd);
 
         if sign_a {
             ui_a = ui_a.wrapping_neg();
@@ -51,6 +51,9 @@ impl<const N: u32> PxE2<{ N }> {
         if sign_c {
             ui_c = ui_c.wrapping_neg();
         }
+        // apply the operation selector to the signs, now that the magnitudes are extracted
+        let sign_c = sign_c ^ matches!(op, MulAddType::SubC);
+        let mut sign_z = sign_z ^ matches!(op, MulAddType::SubProd);
 
         if N == 2 {
             let reg_sa = Self::sign_reg_ui(ui_a);
